@@ -51,6 +51,91 @@ theorem cancel_others_unaffected (t : T) (m : Nat) :
   | none => simp [find_none_filter _ _ hf]
   | some w => simp
 
+/-- what the synchronous actions of a batch leave alone, and where the messages in the waiting
+list / the queue of runnable tasks come from -/
+theorem syncAct_frame (t : T) (q : List Writer) (a : Act) :
+    (t.syncAct q a).1.closing = t.closing ∧ (t.syncAct q a).1.lost = t.lost ∧
+    (t.syncAct q a).1.maxDelay = t.maxDelay ∧ (t.syncAct q a).1.now = t.now ∧
+    (t.syncAct q a).1.wire = t.wire ∧
+    (∀ x ∈ t.used, x ∈ (t.syncAct q a).1.used) ∧
+    (∀ x, x ∈ msgs (t.syncAct q a).1.blocked ∨ x ∈ msgs (t.syncAct q a).2.1 →
+      x ∈ msgs t.blocked ∨ x ∈ msgs q ∨ x ∉ t.used) := by
+  cases a with
+  | send s m =>
+    simp only [T.syncAct]
+    split
+    · exact ⟨rfl, rfl, rfl, rfl, rfl, fun x hx => hx, fun x hx => by
+        rcases hx with hx | hx
+        · exact Or.inl hx
+        · exact Or.inr (Or.inl hx)⟩
+    · rename_i hnew
+      have hnew' : m ∉ t.used := by simpa using hnew
+      refine ⟨rfl, rfl, rfl, rfl, rfl, fun x hx => by simp [T.use, hx], ?_⟩
+      intro x hx
+      rcases hx with hx | hx
+      · exact Or.inl hx
+      · simp only [msgs, List.map_append, List.mem_append, List.map_cons, List.map_nil,
+          List.mem_singleton] at hx
+        rcases hx with hx | rfl
+        · exact Or.inr (Or.inl hx)
+        · exact Or.inr (Or.inr hnew')
+  | pause =>
+    simp only [T.syncAct]
+    obtain ⟨h1, h2, h3, h4, h5⟩ := pause_frame t
+    obtain ⟨g1, g2⟩ := pause_flags t
+    refine ⟨g1, g2, h5, h4, h1, fun x hx => by rw [h3]; exact hx, ?_⟩
+    intro x hx
+    rcases hx with hx | hx
+    · rw [h2] at hx; exact Or.inl hx
+    · exact Or.inr (Or.inl hx)
+  | resume =>
+    simp only [T.syncAct]
+    split
+    · exact ⟨rfl, rfl, rfl, rfl, rfl, fun x hx => hx, fun x hx => by
+        rcases hx with hx | hx
+        · exact Or.inl hx
+        · exact Or.inr (Or.inl hx)⟩
+    · split
+      · exact ⟨rfl, rfl, rfl, rfl, rfl, fun x hx => hx, fun x hx => by
+          rcases hx with hx | hx
+          · exact Or.inl hx
+          · exact Or.inr (Or.inl hx)⟩
+      · refine ⟨rfl, rfl, rfl, rfl, rfl, fun x hx => hx, ?_⟩
+        intro x hx
+        rcases hx with hx | hx
+        · simp [T.resumed, msgs] at hx
+        · simp only [msgs, List.map_append, List.mem_append] at hx
+          rcases hx with hx | hx
+          · exact Or.inr (Or.inl hx)
+          · exact Or.inl hx
+
+theorem sync_frame (acts : List Act) : ∀ (t : T) (q : List Writer),
+    (t.sync q acts).1.closing = t.closing ∧ (t.sync q acts).1.lost = t.lost ∧
+    (t.sync q acts).1.maxDelay = t.maxDelay ∧ (t.sync q acts).1.now = t.now ∧
+    (t.sync q acts).1.wire = t.wire ∧
+    (∀ x ∈ t.used, x ∈ (t.sync q acts).1.used) ∧
+    (∀ x, x ∈ msgs (t.sync q acts).1.blocked ∨ x ∈ msgs (t.sync q acts).2.1 →
+      x ∈ msgs t.blocked ∨ x ∈ msgs q ∨ x ∉ t.used) := by
+  induction acts with
+  | nil =>
+    intro t q
+    exact ⟨rfl, rfl, rfl, rfl, rfl, fun x hx => hx, fun x hx => by
+      rcases hx with hx | hx
+      · exact Or.inl hx
+      · exact Or.inr (Or.inl hx)⟩
+  | cons a as ih =>
+    intro t q
+    simp only [T.sync]
+    obtain ⟨a1, a2, a3, a4, a5, a6, a7⟩ := syncAct_frame t q a
+    obtain ⟨b1, b2, b3, b4, b5, b6, b7⟩ := ih (t.syncAct q a).1 (t.syncAct q a).2.1
+    refine ⟨by rw [b1, a1], by rw [b2, a2], by rw [b3, a3], by rw [b4, a4], by rw [b5, a5],
+      fun x hx => b6 x (a6 x hx), ?_⟩
+    intro x hx
+    rcases b7 x hx with h | h | h
+    · exact a7 x (Or.inl h)
+    · exact a7 x (Or.inr h)
+    · exact Or.inr (Or.inr (fun hu => h (a6 x hu)))
+
 theorem step_maxDelay (t : T) (e : Event) : (step t e).1.maxDelay = t.maxDelay := by
   cases e with
   | send s m flags =>
@@ -82,6 +167,10 @@ theorem step_maxDelay (t : T) (e : Event) : (step t e).1.maxDelay = t.maxDelay :
     · split
       · rfl
       · exact (connectionLost_frame t).2.2.1
+  | batch acts flags =>
+    unfold step
+    simp only []
+    rw [(wakeAll_frame _ _ _).2.2.1, (sync_frame acts t []).2.2.1]
 
 theorem run_maxDelay (es : List Event) : ∀ (t : T), (run t es).1.maxDelay = t.maxDelay := by
   induction es with
@@ -126,6 +215,12 @@ theorem step_closing (t : T) (e : Event) (h : t.closing = true) :
     · split
       · exact ⟨rfl, rfl⟩
       · exact ⟨(connectionLost_frame t).2.2.2.2.2.1, (connectionLost_frame t).1⟩
+  | batch acts flags =>
+    unfold step
+    simp only []
+    obtain ⟨a1, _, _, _, a5, _, _⟩ := sync_frame acts t []
+    have hc : (t.sync [] acts).1.closing = true := by rw [a1]; exact h
+    exact ⟨by rw [wakeAll_closing_wire _ _ _ hc, a5], by rw [(wakeAll_frame _ _ _).1]; exact hc⟩
 
 /-- where messages come from: after a step, a message on the wire was there before, or was
 waiting, or is new; a waiting message was waiting before or is new; `used` only grows -/
@@ -209,6 +304,28 @@ theorem step_sources (t : T) (e : Event) :
       · obtain ⟨_, _, _, _, e, f, g⟩ := connectionLost_frame t
         exact ⟨fun x hx => Or.inl (by rw [f] at hx; exact hx),
                fun x hx => by rw [g] at hx; simp [msgs] at hx, fun x hx => by rw [e]; exact hx⟩
+  | batch acts flags =>
+    unfold step
+    simp only []
+    obtain ⟨_, _, _, _, a5, a6, a7⟩ := sync_frame acts t []
+    obtain ⟨b1, b2⟩ := wakeAll_sources (t.sync [] acts).2.1 (t.sync [] acts).1 flags
+    have hsrc : ∀ x, x ∈ msgs (t.sync [] acts).1.blocked ∨ x ∈ msgs (t.sync [] acts).2.1 →
+        x ∈ msgs t.blocked ∨ x ∉ t.used := by
+      intro x hx
+      rcases a7 x hx with h | h | h
+      · exact Or.inl h
+      · simp [msgs] at h
+      · exact Or.inr h
+    refine ⟨?_, ?_, ?_⟩
+    · intro x hx
+      rcases b1 x hx with h | h
+      · rw [a5] at h; exact Or.inl h
+      · exact Or.inr (hsrc x (Or.inr h))
+    · intro x hx
+      exact hsrc x (b2 x hx)
+    · intro x hx
+      rw [(wakeAll_frame _ _ _).2.2.2.2]
+      exact a6 x hx
 
 /-- a message that was handed to a send, is not on the wire and is not waiting: it can never
 reach the wire any more -/
